@@ -2,6 +2,7 @@ import Huginn.Drv.Proto
 import Huginn.Drv.C12
 import Huginn.Drv.C02
 import Huginn.Spec.Reach
+import Huginn.Model.Http1
 namespace Huginn.Drv.C13
 open Huginn.Drv Huginn.Drv.C12 Huginn.Sig Huginn.Match Huginn.Match.Spec Huginn.TcpExtract
 open Huginn.TcpSig.Spec Huginn.Reach Huginn.Reach.Spec
@@ -106,12 +107,38 @@ def opTcp (impl : String) : P Verdict := do
          tag := tag, model := model,
          spec := if conforms then "own or earlier instantiated entry at quality 1" else "-" }
 
+def bytesStr (b : List UInt8) : String := String.ofList (b.map (fun x => Char.ofNat x.toNat))
+
+def ofSigHdr (h : Huginn.Http1.SigHdr) : Header :=
+  { optional := h.optional, name := bytesStr h.name, value := h.value.map bytesStr }
+
+def ofVer : Huginn.Http1.Ver → HttpVersion
+  | .v10 => .v10 | .v11 => .v11 | .v20 => .v20 | .v30 => .v30
+
+/-- The observation C05's model (`Model/Http1.lean`: parser + `convert_headers_to_http_format` +
+absent list) builds from the message bytes. -/
+def c05Obs (isReq : Bool) (msg : List UInt8) : Option HttpObs :=
+  if isReq then
+    match Huginn.Http1.parseRequest msg with
+    | .ok r => some { version := ofVer r.ver,
+                      horder := (Huginn.Http1.convertHeaders true r.headers).map ofSigHdr,
+                      habsent := (Huginn.Http1.absentHeaders true r.headers).map ofSigHdr,
+                      expsw := bytesStr (r.userAgent.getD Huginn.Http1.unknownSw) }
+    | _ => none
+  else
+    match Huginn.Http1.parseResponse msg with
+    | .ok r => some { version := ofVer r.ver,
+                      horder := (Huginn.Http1.convertHeaders false r.headers).map ofSigHdr,
+                      habsent := (Huginn.Http1.absentHeaders false r.headers).map ofSigHdr,
+                      expsw := bytesStr (r.server.getD Huginn.Http1.unknownSw) }
+    | _ => none
+
 def showHeaders (hs : List Header) : String :=
   ",".intercalate (hs.map (fun h => (if h.optional then "?" else "") ++ h.name ++
     (match h.value with | some v => "=[" ++ v ++ "]" | none => "")))
 
 /-- `C13.http <1 request | 0 response> <label idx> <sig idx> <version> <headers (name, value)>
-<software header value> <observation built by the real parser>` — a message synthesised for the
+<software header value> <message bytes> <observation built by the real parser>` — a message synthesised for the
 bundled entry, parsed by `parse_http1_{request,response}` and looked up with the bundled matcher.
 The model rebuilds the observation from the header list (it must equal the real one) and looks it
 up. Output `none | i j quality`. -/
@@ -119,6 +146,7 @@ def opHttp (impl : String) : P Verdict := do
   let isReq ← bool; let li ← nat; let si ← nat; let v ← pHttpVersion
   let hs ← list (do let n ← text; let val ← opt text; pure (n, val))
   let sw ← opt text
+  let msg ← bytes
   let real ← opt (do
     let rv ← pHttpVersion; let ho ← list pHeader; let ha ← list pHeader; let e ← text
     pure ({ version := rv, horder := ho, habsent := ha, expsw := e } : HttpObs))
@@ -129,6 +157,7 @@ def opHttp (impl : String) : P Verdict := do
     | none => "unparsed"
     | some ro =>
       if ro ≠ o then s!"observation differs: model {showHeaders o.horder}|{showHeaders o.habsent}|{o.expsw}"
+      else if c05Obs isReq msg ≠ some o then "the C05 model (Model/Http1) builds a different observation from the message bytes"
       else showFind httpScore (httpAnalyze bundledHttpRequest bundledHttpResponse isReq o)
   let own := sigAt db li si
   let conforms := match own with | some s => decide (ConformsHttp isReq v hs sw s) | none => false
